@@ -99,6 +99,11 @@ CHECKS = {
   technique="runtime monitoring, conservation checker over diagnostic multisets of the real linter: every program is linted plain and with ignore directives inserted; each diagnostic is mapped to (file, original line, rule, severity, masked message) and the decorated run must equal the plain run minus exactly the diagnostics located in the covered statements (of the listed rules)",
   text="Line-based programs with >=4 independent diagnostics of >=3 rules (21 rule names plus rule-less diagnostics, calibrated in every run) at top level, nested in if/else/switch-case blocks, in later subroutines and in included modules; for every statement position all three directive forms x {no rules, listed, unlisted, unknown, two rules} x {#, //, /* */}, pairs of directives (nested, sequential, next-line over next-line, range in range), layouts (CRLF, blank lines, tabs, several leading comments). Nothing outside the covered set may disappear (leak), everything covered must disappear (under), nothing new may appear.",
   note="Only balanced ranges within one block are generated (the property speaks of start...end pairs). A directive on an include statement is taken to cover the included statements. Statement extents come from the builder's own line bookkeeping."),
+ "C08": dict(
+  category="exploration", design_ref="DESIGN.md §4 C08",
+  technique="runtime monitoring with crash/budget watchdogs around the real interpreter and test runner: worker-process supervision (exit status, stderr markers, RLIMIT_AS 4 GiB, 8 MB max stack), debugger step counter (200000 statements per request), restart counter, reply-shape check; process-fatal executions run in a supervised child of the worker",
+  text="Eight families of small programs are executed through TestProcessInit+ProcessTestSubroutine, Interpreter.ServeHTTP and tester.Run: all 15 assignment operators x lint-accepted type pairs x complete product of boundary operands x {literal, variable}; all 199 built-in functions x every signature x boundary arguments, as expression and statement; recursion and call chains (50/99/100/101/1000), call-tree fan-out; restart/error/return actions in every scope with 1-3 requests per instance; directors/backends/tables/ACLs/ratecounters with boundary values; self/cyclic/missing/diamond includes; boundary requests (method, path, query, 300 headers, 70 KiB header, 8 KiB URL); the `falco test` path. A returned runtime error is fine; a panic, a fatal error, OOM, > 200000 statements, > 3 restarts or a malformed reply is a violation.",
+  note="Termination is restated as bounded progress (step budget, restart bound, framework watchdog 120 s); the out-of-memory verdicts depend on the 4 GiB address-space limit. Programs the linter rejects are not members of the operator/function families."),
 }
 
 NOT_APPLICABLE = {}
